@@ -303,9 +303,14 @@ def litEntries : Meta → List (Bytes × Bytes)
 /-- what the exchange handler saw as `InputMetadata`, as literals (it echoes these) -/
 def seenLit (req : Req) : List (Bytes × Bytes) := litEntries (stripFramework req.md)
 
-/-- an echoing emit becomes an emit carrying the metadata the handler saw -/
+/-- The public emit API takes a `map[string]string`: of several entries with one key the last wins. -/
+def lastWins : List (Bytes × Bytes) → List (Bytes × Bytes)
+  | [] => []
+  | kv :: r => if r.any (fun e => e.1 == kv.1) then lastWins r else kv :: lastWins r
+
+/-- an echoing emit becomes an emit carrying the metadata the handler saw (handed over as a map) -/
 def instAct (seen : List (Bytes × Bytes)) : Act → Act
-  | .emitEcho src prop => .emit src seen prop
+  | .emitEcho src prop => .emit src (lastWins seen) prop
   | a => a
 
 def instTick (seen : List (Bytes × Bytes)) (t : Tick) : Tick := t.map (instAct seen)
